@@ -174,7 +174,17 @@ def run(tier, seed):
     for e in e4:
         res.violation("model evaluation failed (coqc)", dict(kind="coqc-error", log=e, no_failing_input_found=True))
     res.traces_validated += len(tc) - len(f4)
+    # ---- the same with electronic_integration = "linear-rk4" (Model/Traj.step_cum_rk4)
+    tcr, tmetar = ptraj.collect(res, rng, 8 if tier == "quick" else 100, 40 if tier == "quick" else 800, kind="cum", integ="rk4")
+    f4r, e4r = run_case_check("C09trajr", ptraj.PRELUDE_T, "caseC", "chkCr", tcr, per_file=4, timeout=1500)
+    for e in e4r:
+        res.violation("model evaluation failed (coqc)", dict(kind="coqc-error", log=e, no_failing_input_found=True))
+    res.traces_validated += len(tcr) - len(f4r)
     bad += getattr(res, "oracle_bad", [])
+    if f4r and not bad and not corr and not f4:
+        res.violation("loop body of a TrajectoryCum run with linear-rk4 differs from Model/Traj.step_cum_rk4 (Run/RTraj.chkCr): C09_full_step_rk4_accepted_hop no longer covers the code",
+                      dict(kind="correspondence", correspondence="Run/RTraj.chkCr: Model/Traj.step_cum_rk4 vs the loop body of TrajectoryCum.simulate with electronic_integration='linear-rk4'",
+                           failing_inputs=[tmetar[i] for i in f4r[:4]], no_failing_input_found=True))
     if f4 and not bad and not corr:
         res.violation("loop body of a TrajectoryCum run differs from Model/Traj.step_cum (Run/RTraj.chkC): C09_full_step_accepted_hop no longer covers the code",
                       dict(kind="correspondence", correspondence="Run/RTraj.chkC: Model/Traj.step_cum vs the loop body of TrajectoryCum.simulate",
